@@ -24,6 +24,15 @@ CLAIMED = {
         "Finite x finite double dispatch and the 'float op finite is never exact' clause are not under contract.",
    note="Trusted: ghost-number prelude (finite kinds: is_zero/is_positive/... read a ghost value; finite classes forward to the Infty/NaN methods), extraction rules, CBMC.",
    tech="contract-based deductive verification with CBMC on mechanically extracted function text (route F), callers checked against assumed contracts of the finite number classes"),
+ "C05": dict(cat="proof", design="§4 C05",
+   text="Contract proof (CBMC, loop-free, full 64-bit operand domain) on the real text of the normalisation glue that symengine adds on top of GMP: "
+        "Integer::divint/rdiv/powint/pow_negint/neg, Rational::from_mpq (both overloads)/from_two_ints (both)/is_canonical and the inline "
+        "addrat/subrat/rsubrat/mulrat/divrat/rdivrat/powrat, Complex::from_mpq/from_two_rats/from_two_nums/is_canonical, against the assumed GMP contracts: "
+        "results are normalised (lowest terms, positive denominator, Integer iff denominator 1, real iff imaginary part 0), x/0 is zoo and 0/0 nan, "
+        "0**negative is zoo, and every GMP precondition (non-zero denominator/divisor) is discharged at its call site. Exact *values* of the results are "
+        "checked only as a bounded stand-in (operands |x| <= 12, table arithmetic) and are not counted as proved. The limb arithmetic itself is GMP's and is assumed.",
+   note="Trusted: prelude/exactnum.h (GMP contracts: canonicalize and mpq operators return canonical values; integer_class is a mathematical integer), extraction rules, CBMC.",
+   tech="contract-based deductive verification with CBMC on mechanically extracted function text (route F: loop-free, full domain, callers checked against assumed GMP contracts); bounded value check (route B) as stand-in for result values"),
  "C25": dict(cat="proof", design="§4 C25",
    text="Inductive contract proof (CBMC function and loop contracts via goto-instrument --dfcc, every iteration count) of the CSR canonical-form "
         "predicates csr_has_sorted_indices / csr_has_duplicates / csr_has_canonical_format on their real bodies (soundness with ghost indices, completeness "
@@ -31,6 +40,14 @@ CLAIMED = {
         "(K=16 quick, 32 thorough) by the precondition.",
    note="Trusted: signature-only rewrite std::vector<unsigned>& -> pointer; CBMC tool chain.",
    tech="contract-based deductive verification: CBMC code contracts with loop invariants and decreases clauses (route P), modular --replace-call-with-contract"),
+ "C34": dict(cat="proof", design="§4 C34",
+   text="Contract proof (CBMC, loop-free, full domain) on the real text of tribool.h (Kleene and/or/not/andwk/orwk, conversions: soundness of every combination "
+        "of sound answers) and of the Number/Constant/Infty/NaN rules of the Zero/Positive/Negative/NonPositive/NonNegative/Real/Complex/Rational/Integer/Finite "
+        "visitors in test_visitors.cpp/.h against the ghost-number contracts: every definite answer is true of the operand's value for every number kind "
+        "(integer, rational, double, complex, +-oo, zoo, nan) and the five named constants. Add/Mul/Pow combination rules, Assumptions::is_* and the "
+        "function-specific rules are not under contract.",
+   note="Trusted: ghost-number prelude, hand-written visitor dispatch table, mathematical facts about pi/E/EulerGamma/Catalan/GoldenRatio, extraction rules, CBMC.",
+   tech="contract-based deductive verification with CBMC on mechanically extracted function text (route F: loop-free, full domain of the ghost model)"),
  "C29": dict(cat="proof", design="§4 C29",
    text="Contract proof (CBMC, loop-free) on the real text of Eq/Ne/Le/Ge/Lt/Gt from logic.cpp against assumed contracts of Number::sub, is_negative, "
         "is_zero and eq: for all pairs of real numbers of any kind (integer, rational, double, +-oo) the four order relations are true exactly when "
@@ -77,7 +94,7 @@ NA = {
  "C46": "Contejean-Devie is a stack-driven search whose termination and completeness are a mathematical theorem over unbounded integer vectors; the body is std::vector<DenseMatrix>/vector<vector<bool>> C++ and no unwinding bound closes the while loop.",
 }
 # claimed-in-design but not yet built: listed as not applicable *for now* with that reason, replaced as they are built
-PENDING = {'C05': 'claimed in DESIGN.md §4 but its check is not built yet in this commit; not claimed until bin/check C05 exists', 'C17': 'claimed in DESIGN.md §4 but its check is not built yet in this commit; not claimed until bin/check C17 exists', 'C20': 'claimed in DESIGN.md §4 but its check is not built yet in this commit; not claimed until bin/check C20 exists', 'C24': 'claimed in DESIGN.md §4 but its check is not built yet in this commit; not claimed until bin/check C24 exists', 'C33': 'claimed in DESIGN.md §4 but its check is not built yet in this commit; not claimed until bin/check C33 exists', 'C34': 'claimed in DESIGN.md §4 but its check is not built yet in this commit; not claimed until bin/check C34 exists', 'C38': 'claimed in DESIGN.md §4 but its check is not built yet in this commit; not claimed until bin/check C38 exists'}
+PENDING = {'C17': 'claimed in DESIGN.md §4 but its check is not built yet in this commit; not claimed until bin/check C17 exists', 'C20': 'claimed in DESIGN.md §4 but its check is not built yet in this commit; not claimed until bin/check C20 exists', 'C24': 'claimed in DESIGN.md §4 but its check is not built yet in this commit; not claimed until bin/check C24 exists', 'C33': 'claimed in DESIGN.md §4 but its check is not built yet in this commit; not claimed until bin/check C33 exists', 'C38': 'claimed in DESIGN.md §4 but its check is not built yet in this commit; not claimed until bin/check C38 exists'}
 
 def main():
     ids = [json.loads(l)["id"] for l in open(os.path.join(V, "properties.jsonl"))]
